@@ -458,6 +458,112 @@ def shard_pred(args):
 
 
 # ---------------------------------------------------------------------------------------------------------------
+# leg 1b: pattern objects that were already USED (turned into a checker, evaluated) before they are extended or combined —
+# `book = P[Book]; name_mapping(book, ...); loader(book.title, ...)` — and leg 1c: facade functions taking several predicates
+
+_PATTERN_TAGS = ("P", "attr", "item", "items", "garg", "add")
+
+
+def build_used(e, med, stack):
+    """like build(), but every pattern sub-object is used as a predicate before its parent extends or combines it"""
+    tag = e[0]
+    if tag in ("cls", "str", "P", "ANY"):
+        return build(e)
+
+    def sub(x):
+        obj = build_used(x, med, stack)
+        if x[0] in _PATTERN_TAGS[1:] or x[0] in ("or", "and", "xor", "not"):
+            create_loc_stack_checker(obj).check_loc_stack(med, stack)       # the use
+        return obj
+    if tag == "attr":
+        return getattr(sub(e[1]), e[2])
+    if tag == "item":
+        return sub(e[1])[build(e[2])]
+    if tag == "items":
+        return sub(e[1])[tuple(build(r) for r in e[2])]
+    if tag == "garg":
+        return sub(e[1]).generic_arg(e[2], build(e[3]))
+    if tag == "add":
+        return sub(e[1]) + sub(e[2])
+    if tag == "or":
+        return sub(e[1]) | sub(e[2])
+    if tag == "and":
+        return sub(e[1]) & sub(e[2])
+    if tag == "xor":
+        return sub(e[1]) ^ sub(e[2])
+    if tag == "not":
+        return ~sub(e[1])
+    raise ValueError(e)
+
+
+def shard_used(args):
+    tier, start, stop = args
+    report = Report()
+    exprs = [(n, e) for n, e in expression_space() if n >= 1]
+    stacks = stack_space(tier)
+    med = mediator()
+    probe_stack = stacks[0][1]
+    for nesting, e in exprs[start:stop]:
+        case = {"leg": "pred_used", "expr": e}
+        try:
+            checker = create_loc_stack_checker(build_used(e, med, probe_stack))
+        except Exception:  # noqa: BLE001
+            continue        # construction errors are the subject of the main leg
+        want_fn = ref_pred.compile_expr(e)
+        bad = None
+        for ref_stack, stack in stacks[::7]:
+            report.evaluations += 1
+            got, want = checker.check_loc_stack(med, stack), want_fn(ref_stack)
+            if got != want and bad is None:
+                bad = (ref_stack, got, want)
+        report.case(("pred_used", repr(e)), nontrivial=True, sample=lambda: {"leg": "pred_used", "expr": show(e)})
+        report.outcome("pred_used:" + ("differs" if bad else "agrees"))
+        if bad:
+            report.violation({"check": "C10.pred_used", "form": form(e)},
+                             f"{show(e)} built from pattern objects that were used as predicates before being extended: on "
+                             f"{show_stack(bad[0])} the checker gives {bad[1]!r}, the documented meaning gives {bad[2]!r}",
+                             {**case, "stack": bad[0]})
+    return report
+
+
+def shard_facade(args):
+    """allow_unlinked_optional(p1, .., pn) is a provider bound to 'any of the predicates' (the wrapped provider has no condition
+    of its own): its request checker must be the pointwise OR on every stack, at every evaluation (the stacks are evaluated in
+    sequence on ONE provider object)"""
+    from adaptix._internal.conversion.request_cls import UnlinkedOptionalPolicyRequest as LoaderRequest
+    from adaptix.conversion import allow_unlinked_optional as enum_by_exact_value
+    tier, start, stop = args
+    report = Report()
+    atoms = [e for n, e in expression_space() if n == 0]
+    combos = [(a, b) for a in atoms for b in atoms][::5] + [(a, b, c) for a in atoms[::9] for b in atoms[::7] for c in atoms[::11]]
+    stacks = stack_space(tier)
+    med = mediator()
+    for combo in combos[start:stop]:
+        case = {"leg": "facade_any", "exprs": list(combo)}
+        try:
+            provider = enum_by_exact_value(*[build(e) for e in combo])
+            checkers = [chk for req_cls, chk, _ in provider.get_request_handlers() if req_cls is LoaderRequest]
+        except Exception:  # noqa: BLE001
+            continue
+        wants = [ref_pred.compile_expr(e) for e in combo]
+        bad = None
+        for rnd in (0, 1):
+            for ref_stack, stack in stacks[rnd::11]:
+                report.evaluations += 1
+                want = any(w(ref_stack) for w in wants)
+                got = all(chk.check_request(med, LoaderRequest(loc_stack=stack)) for chk in checkers)
+                if got != want and bad is None:
+                    bad = (ref_stack, got, want, rnd)
+        report.case(("facade_any", repr(combo)), nontrivial=True, sample=lambda: {"leg": "facade_any", "exprs": [show(e) for e in combo]})
+        report.outcome("facade_any:" + ("differs" if bad else "agrees"))
+        if bad:
+            report.violation({"check": "C10.facade_any", "n": len(combo)},
+                             f"allow_unlinked_optional({', '.join(show(e) for e in combo)}) on {show_stack(bad[0])} (pass {bad[3]}): request "
+                             f"checker gives {bad[1]!r}, 'any of the predicates' gives {bad[2]!r}", {**case, "stack": bad[0]})
+    return report
+
+
+# ---------------------------------------------------------------------------------------------------------------
 # leg 2: the documented identities, implementation against implementation
 
 def identities():
@@ -637,6 +743,8 @@ def run(tier):
         [(shard_pred, (tier, a, b)) for a, b in _ranges(len(exprs), 40 if tier == "thorough" else 150)]
         + [(shard_e2e, (tier, a, b)) for a, b in _ranges(n_e2e, 60)]
         + [(shard_identity, (tier, a, b)) for a, b in _ranges(n_id, 40)]
+        + [(shard_used, (tier, a, b)) for a, b in _ranges(sum(1 for n, _ in exprs if n >= 1), 400)]
+        + [(shard_facade, (tier, a, b)) for a, b in _ranges(40000, 700)]
     )
     # interleave the legs so that the long shards do not all start last
     shards.sort(key=lambda s: (s[1][1], s[0].__name__))
